@@ -263,7 +263,7 @@ class Box:
 
 
 @python.define
-def Mutator(data: ty.Any, kind: int, val: int) -> int:
+def Mutator(data: ty.Any, kind: int, val: int, other: ty.Any = None) -> int:
     """body that modifies its input in place according to `kind`"""
     import vf.rec as R
     R.rec("Mutator", kind, val)
@@ -281,6 +281,14 @@ def Mutator(data: ty.Any, kind: int, val: int) -> int:
         data.pop()
     elif kind == 7:
         data.sort()
+    elif kind == 8:
+        data.append(other[-1])          # may make `data` equal to the other input
+    elif kind == 9:
+        tmp = dict(data)
+        data.clear(); data.update(other)
+        other.clear(); other.update(tmp)  # swap the contents of two dict inputs
+    elif kind == 10:
+        data[-1] += val                  # last element of a (large) array
     return 1
 
 
@@ -370,3 +378,22 @@ def Nested(x: int):
     s1 = workflow.add(Sub3(x=x, base=10), name="s1")
     s2 = workflow.add(Sub3(x=x, base=20), name="s2")
     return s1.out, s2.out, r2.out
+
+
+@workflow.define(outputs=["out"])
+def W12(xs: list[int]):
+    """consumer reads a split node and a node derived from it"""
+    a = workflow.add(Node(tag=1).split(x=xs), name="a")
+    b = workflow.add(Node(x=a.out, tag=2), name="b")
+    p = workflow.add(Pair(x=a.out, y=b.out, tag=3), name="p")
+    return p.out
+
+
+@workflow.define(outputs=["out"])
+def W13(xs: list[int], ys: list[int]):
+    """two independent splits, a node derived from the first, fan-in of all three"""
+    a = workflow.add(Node(tag=1).split(x=xs), name="a")
+    c = workflow.add(Node(tag=2).split(x=ys), name="c")
+    b = workflow.add(Pair(x=a.out, y=c.out, tag=3), name="b")
+    p = workflow.add(Pair(x=b.out, y=a.out, tag=4), name="p")
+    return p.out
